@@ -415,6 +415,17 @@ def facts(snap, F):
     F.try_add("storeGuard", "Bool", lambda: L.lean_bool(wf()["storeGuard"] or not wf()["storeReloads"]),
               "the case-3 store cannot let an AttributeError escape (guarded, or no attribute load at all)")
 
+    def guard_gone():
+        fn = front().defs["_raise_if_pid_reused"]
+        for n in ast.walk(fn):
+            if isinstance(n, ast.If) and extract.dotted(n.test) == "self._gone" \
+                    and any(isinstance(x, ast.Raise) and "NoSuchProcess" in extract.dotted(
+                        x.exc.func if isinstance(x.exc, ast.Call) else x.exc) for x in n.body):
+                return True
+        return False
+    F.try_add("guardRaisesWhenGone", "Bool", lambda: L.lean_bool(guard_gone()),
+              "_raise_if_pid_reused(): `if self._gone: raise NoSuchProcess` (the guard refuses a process seen gone)")
+
     def meths():
         rows = []
         lx, fr = linux(), front()
